@@ -64,7 +64,8 @@ def type_widths():
     # primitive wrappers: `impl SizedParsable for X { const SIZE: usize = N; }`
     for path, name in [("src/bases/types/size.rs", "Size"), ("src/bases/types/offset.rs", "Offset"),
                        ("src/bases/types/sized_offset.rs", "SizedOffset"), ("src/bases/types/vendor_id.rs", "VendorId"),
-                       ("src/common/pack_kind.rs", "PackKind"), ("src/common/pack_kind.rs", "FullPackKind")]:
+                       ("src/common/pack_kind.rs", "PackKind"), ("src/common/pack_kind.rs", "FullPackKind"),
+                       ("src/bases/types/byte_size.rs", "ByteSize")]:
         try:
             src = read(path)
             m = re.search(r"impl SizedParsable for %s \{\s*const SIZE: usize = ([^;]+);" % name, src)
